@@ -147,15 +147,19 @@ def compare_zone(verdict, st, o, zone_kind, z, r, s, guards, in_guard, us, ws, m
     st.evals += len(us) + len(ws)
     base_inp = dict(extra_input)
     base_inp.update({"zone_kind": zone_kind, "rule": r, "s": s, "guards": guards})
-    spec_u = spec_w = None
+    spec_u = spec_w = spec_f = None
     if r is not None:
         spec_u = P.dec_spec_utc(o.call(P.E_SPEC_UTC, P.enc_posix(r) + us), len(us)) if us else []
+        spec_f = o.call(P.E_SPEC_FOLD, P.enc_posix(r) + us) if us else []
         spec_w = spec_wall_expect(o, r, ws) if ws else []
     n_bad = 0
     for k, u in enumerate(us):
         iu = impl_u[k]
         sp = spec_u[k] if spec_u is not None else None
-        spec_bad = (sp is not None and (iu[0] != 0 or [iu[3], iu[4], iu[5]] != sp or iu[1] != u + sp[0]))
+        spec_bad = (sp is not None and (iu[0] != 0 or [iu[3], iu[4], iu[5]] != sp or iu[1] != u + sp[0] or
+                                        (in_guard and iu[2] != spec_f[k])))
+        if sp is not None:
+            sp = sp + [spec_f[k]]            # (offset, dst, abbreviation, PEP 495 fold)
         model_bad = model_utc is not None and iu != model_utc[k]
         if spec_bad and (in_guard or model_bad or not in_guard):
             inp = dict(base_inp)
@@ -275,6 +279,23 @@ def check_rule(verdict, st, o, r, rng, years, idx, tier, do_local):
         k = len(us) // 2
         st.samples.append({"s": s, "utc": P.dt_of(us[k]).isoformat(), "impl": P.impl_obs_utc(z, us[k]),
                            "model": m_u[k], "in_guard": in_guard})
+    # ---- tz.gettz(s) dispatches TZ-variable strings to tzstr: same observations
+    if idx % 5 == 0:
+        from dateutil import tz as _tzm
+        try:
+            g = _tzm.gettz(s) if not po else None
+        except Exception as ex:
+            g = ex
+        if g is not None and not po:
+            st.bump("gettz_strings")
+            for u in us[::max(1, len(us) // 6)]:
+                a = P.impl_obs_utc(z, u)
+                b = [P.exc_code(g)] if isinstance(g, Exception) else P.impl_obs_utc(g, u)
+                st.evals += 1
+                if a != b:
+                    verdict.violation({"kind": "tz.gettz(s) does not behave like tz.tzstr(s)",
+                                       "input": {"s": s, "utc": u, "zone_kind": "gettz", "rule": r},
+                                       "impl": b, "tzstr_impl": a}, concrete=in_guard)
     # ---- tzrange from the equivalent arguments
     from dateutil import tz
     a = P.tzrange_args(r, rng)
